@@ -354,7 +354,7 @@ def check_version_pointer_lifetime(ctx):
                 return q
             check_automaton(ctx, "T10-pinning", "version-pointer:%s:%s" % (f.name, v), f, (True, False), step, None,
                             "`%s` (a copy of %s) is used only under the mutex or after %s" % (v, srck, refname))
-    ctx.require(n >= 8, "copies of versions->current / db->mem / db->imm not found (%d)" % n)
+    ctx.require(n >= 4, "copies of versions->current / db->mem / db->imm not found (%d)" % n)
 
 
 def check_open_gc_order(ctx):
